@@ -32,6 +32,9 @@ pub enum Mode {
     /// a seeded stream whose first `biased_len` bytes are zero with probability p/65536: drives the
     /// norm-retry and compression-retry branches of sign
     Biased { seed: u64, p: u32, biased_len: u32 },
+    /// a seeded uniform stream except that the first `forced` attempts are made to fail the norm
+    /// test (util::RestartRng): the signature is what the signer emits after discarding attempts
+    Restart { seed: u64, forced: u8 },
 }
 
 #[derive(Clone, Debug, Serialize, Deserialize)]
@@ -86,6 +89,7 @@ fn sign_and_check(n: usize, key: &api::Key, msg: &[u8], mode: &Mode, st: &mut St
         Mode::Natural => api::sign(msg, sk),
         Mode::Seeded { seed } => api::sign_with(msg, sk, Box::new(crate::util::chacha(*seed))),
         Mode::Biased { seed, p, biased_len } => api::sign_with(msg, sk, Box::new(BiasedRng::new(*seed, *p, *biased_len as usize))),
+        Mode::Restart { seed, forced } => api::sign_with(msg, sk, Box::new(crate::util::RestartRng::new(*seed, n, *forced as usize))),
     };
     let sig = if via_slot {
         st.count("signatures_with_a_clone_in_a_reused_slot");
@@ -123,6 +127,7 @@ fn sign_and_check(n: usize, key: &api::Key, msg: &[u8], mode: &Mode, st: &mut St
         Mode::Natural => "natural",
         Mode::Seeded { .. } => "seeded",
         Mode::Biased { .. } => "biased",
+        Mode::Restart { .. } => "after_forced_restarts",
     }));
     if msg.is_empty() {
         st.count("empty_message");
@@ -146,6 +151,7 @@ fn mode_strategy(n: usize) -> BoxedStrategy<Mode> {
         // zero-biased streams: the whole attempt mildly biased, or a short strongly biased prefix
         3 => (any::<u64>(), 2200u32..4200).prop_map(|(seed, p)| Mode::Biased { seed, p, biased_len: 400_000 }),
         2 => (any::<u64>(), 5000u32..12000, 4000u32..16000).prop_map(move |(seed, p, l)| Mode::Biased { seed, p, biased_len: l * scale }),
+        1 => (any::<u64>(), 1u8..=3).prop_map(|(seed, forced)| Mode::Restart { seed, forced }),
     ]
     .boxed()
 }
